@@ -24,7 +24,8 @@ Record rf := { r_idx : nat; r_label : str; r_auto : bool }.     (* nodes.footnot
 Inductive warn : Type :=
 | WDup (l : str)                  (* "Duplicate footnote definition found for label" [ref.footnote] *)
 | WUnref (l : str) (auto : bool)  (* "Footnote [..] is not referenced." [ref.footnote] *)
-| WTooMany.                       (* docutils ERROR "Too many autonumbered footnote references" *)
+| WTooMany                        (* docutils ERROR "Too many autonumbered footnote references" *)
+| WUnrefSymbol.                   (* "Footnote [*] is not referenced." (symbol footnotes: rST only, never produced here) *)
 
 Record regs := {
   g_nameids : list str;                     (* keys of document.nameids *)
